@@ -214,6 +214,24 @@ Definition digest_ok (c : cfg) (r : req) (ck0 : text) : bool :=
   | _, _ => false
   end.
 
+(* LEGACY tickets: earlier releases of this helper stored a text user id percent-quoted with user_data
+   'userid_type:unicode' (the decoder table keeps that entry "for old cookies").  Such a ticket, validly signed with the
+   helper's secret, is a ticket issued for a text user id: it must yield that text (inside the timeout window). *)
+Definition legacy_ud : text := userid_typename ++ [117; 110; 105; 99; 111; 100; 101].
+Definition spec_legacy_unicode (c : cfg) (r : req) : option idres :=
+  match cookie r, eff_ip c r with
+  | Some ck0, Some ip =>
+      match parse_fields (hashalg c) ck0 with
+      | FOk d ts uid tk ud =>
+          (* tokens as a helper validates them before issuing (a signed ticket with other tokens is foreign content) *)
+          if text_eqb ud legacy_ud && digest_ok c r ck0 && forallb valid_token (filter nonempty (split_on comma tk))
+          then Some (if timed_out c ts (now2 r) then INone else ISome ts (VStr uid) (split_on comma tk) ud)
+          else None
+      | FBad => None
+      end
+  | _, _ => None
+  end.
+
 (* What a ticket issued at [t0] for [u] and [toks] must yield at time [now]:
    that identity while now <= t0 + timeout (or no timeout is configured), nothing afterwards.
    [n2] is twice the clock value, so that half seconds can be expressed. *)
@@ -678,7 +696,8 @@ Definition run_C09 (v : val) : val :=
         let spec := VL [VL [vbool dok; vbool dok1]; expect; vlist put_ck (spec_response Hf dz ur cs r sops);
                         VL [VT (cookie_name cs); put_optT (spec_domain cs r); VT (path cs); vbool (secure cs);
                             vbool (http_only cs); put_optT (samesite cs); put_optZ (max_age cs)];
-                        final] in
+                        final;
+                        match spec_legacy_unicode Hf dz ur cs r with Some x => VL [put_idres x] | None => VL [] end] in
         (* ---- oracle queries of this run (for the constructed configuration and for the one the spec speaks about) *)
         let msgs_for := fun cc : cfg =>
               flat_map (fun bo : bool * xop => if fst bo then [] else
